@@ -193,6 +193,10 @@ deriving Inhabited
 /-- surface / volume accessors (out-of-range reads give a default, never reached on valid data) -/
 def SimpleUnit.surf (u : SimpleUnit α) (sid : Nat) : Surface α := u.surfaces.getD sid default
 def SimpleUnit.vol (u : SimpleUnit α) (id : Nat) : Volume α := u.volumes.getD id default
+/-- BIH node accessors: node ids `< inner.size` are inner nodes, the others leaves -/
+def SimpleUnit.innerNode (u : SimpleUnit α) (n : Nat) : BihInner α := u.inner.getD n default
+def SimpleUnit.leafNode (u : SimpleUnit α) (n : Nat) : BihLeaf :=
+  u.leaves.getD (n - u.inner.size) default
 
 structure RectArray (α : Type) where
   dims : Array Nat            -- 3
@@ -307,7 +311,7 @@ def inBBox (v : Volume α) (p : Vec3 α) : Bool :=
 /-- `BIHTraverser::next_node` -/
 def bihNext (u : SimpleUnit α) (cur : Nat) (prev : Option Nat) (p : Vec3 α) : Option Nat :=
   if cur < u.inner.size then
-    let nd := u.inner.getD cur default
+    let nd := u.innerNode cur
     let pp := p.get nd.axis
     if prev == nd.parent then
       if Num.lt pp nd.lpos then nd.lchild else nd.rchild
@@ -324,7 +328,7 @@ def bihLoop (u : SimpleUnit α) (p : Vec3 α) : Nat → Nat → Option Nat → L
   | fuel + 1, cur, prev =>
     let here : List Nat :=
       if cur < u.inner.size then []
-      else ((u.leaves.getD (cur - u.inner.size) default).vols).filter fun v =>
+      else ((u.leafNode cur).vols).filter fun v =>
         inBBox (u.vol v) p
     match bihNext u cur prev p with
     | none => here
